@@ -123,6 +123,15 @@ def make_matrix(spec):
     if n >= 2:
       M = M + 0.0
       M[0, n - 1] += 0.5 * (np.abs(M).max() + 1.0)
+  elif kind == "block_tinyneg":
+    # a PSD block plus one decoupled feature whose (diagonal) entry is a rounding-level
+    # negative number: the matrix is not diagonal, its smallest eigenvalue is that entry
+    if n >= 3:
+      M[n - 1, :] = 0.0
+      M[:, n - 1] = 0.0
+      M[n - 1, n - 1] = -spec.get("tiny", 1e-18) * max(np.abs(w).max(), 1e-300)
+      if np.abs(M - np.diag(np.diag(M))).max() == 0:
+        M[0, 1] = M[1, 0] = 0.25 * np.sqrt(abs(M[0, 0] * M[1, 1]))
   elif kind == "diag_neg":
     M = np.diag(w)
     M[rs.randint(0, n), rs.randint(0, n)] *= 1.0
@@ -623,7 +632,12 @@ def gen_plan(seed, tier):
                           eps=r.choice([1e-15, 1e-13, 1e-9, 1e-6, 1e-3]),
                           neg=r.choice([1e-3, 1e-1, 1.0, 1e-6]))
     plan["tol"] = r.choice([None, None, 0.0, 1e-12, 1e-6, 1e-2])
-    if substream(seed, "c20-f32").random() < 0.12:
+    rb = substream(seed, "c20-block")
+    if rb.random() < 0.08:
+      plan["matrix"].update(kind="block_tinyneg", n=max(3, n), rank=max(3, n), lo=-2, hi=2,
+                            tiny=rb.choice([1e-18, 1e-15, 1e-12]))
+      plan["tol"] = rb.choice([1e-6, 1e-2, 1e-4])      # an explicit tolerance far above the entry
+    elif substream(seed, "c20-f32").random() < 0.12:
       plan["matrix"]["dtype"] = "float32"
       plan["tol"] = None
   elif cfg == "prior":
